@@ -336,3 +336,111 @@ pub fn run<P: Property + 'static>(p: &'static P, case: P::Case) {
         std::process::abort();
     }
 }
+
+// ------------------------------------------------------------------------------------------
+// generic coverage-guided target: the fuzzer's bytes are the *random source* of the property's own proptest strategy
+// (proptest's pass-through RNG), so libFuzzer mutates and recombines the choices the structured generator makes --
+// structure-aware fuzzing with the same domain and the same oracle as ./check <ID>, for every property.
+
+const TAIL: usize = 1 << 18;
+
+/// bytes -> a case of `p`'s thorough-tier strategy (None when the strategy rejects these choices)
+pub fn case_from_bytes<P: Property>(p: &P, strat: &proptest::strategy::BoxedStrategy<P::Case>, data: &[u8]) -> Option<P::Case> {
+    use proptest::strategy::{Strategy, ValueTree};
+    use proptest::test_runner::{Config, RngAlgorithm, TestRng, TestRunner};
+    let _ = p;
+    // proptest's pass-through generator yields zeros once the bytes are used up, and rand's unbiased range sampling
+    // rejects a zero draw for ever: the choice string is therefore continued by a pseudo-random tail that is a pure
+    // function of the bytes (long enough that no strategy here reaches its end).
+    let mut buf = Vec::with_capacity(data.len() + TAIL);
+    buf.extend_from_slice(data);
+    let mut x = fnv64(&[data]) | 1;
+    while buf.len() < data.len() + TAIL {
+        x ^= x << 13;
+        x ^= x >> 7;
+        x ^= x << 17;
+        buf.extend_from_slice(&x.wrapping_mul(0x2545F4914F6CDD1D).to_le_bytes());
+    }
+    let rng = TestRng::from_seed(RngAlgorithm::PassThrough, &buf);
+    let config = Config { failure_persistence: None, max_local_rejects: 2000, max_global_rejects: 200, ..Config::default() };
+    let mut runner = TestRunner::new_with_rng(config, rng);
+    strat.new_tree(&mut runner).ok().map(|t| t.current())
+}
+
+macro_rules! with_property {
+    ($id:expr, $f:ident $(, $arg:expr)*) => {{
+        use crate::props::*;
+        match $id {
+            "C01" => { static P: c01::C01 = c01::C01; $f(&P $(, $arg)*) }
+            "C02" => { static P: c02::C02 = c02::C02; $f(&P $(, $arg)*) }
+            "C03" => { static P: c03::C03 = c03::C03; $f(&P $(, $arg)*) }
+            "C04" => { static P: c04::C04 = c04::C04; $f(&P $(, $arg)*) }
+            "C05" => { static P: c05::C05 = c05::C05; $f(&P $(, $arg)*) }
+            "C06" => { static P: c06::C06 = c06::C06; $f(&P $(, $arg)*) }
+            "C07" => { static P: c07::C07 = c07::C07; $f(&P $(, $arg)*) }
+            "C08" => { static P: c08::C08 = c08::C08; $f(&P $(, $arg)*) }
+            "C09" => { static P: c09::C09 = c09::C09; $f(&P $(, $arg)*) }
+            "C10" => { static P: c10::C10 = c10::C10; $f(&P $(, $arg)*) }
+            "C11" => { static P: c11::C11 = c11::C11; $f(&P $(, $arg)*) }
+            "C12" => { static P: c12::C12 = c12::C12; $f(&P $(, $arg)*) }
+            "C13" => { static P: c13::C13 = c13::C13; $f(&P $(, $arg)*) }
+            "C16" => { static P: c16::C16 = c16::C16; $f(&P $(, $arg)*) }
+            "C17" => { static P: c17::C17 = c17::C17; $f(&P $(, $arg)*) }
+            "C18" => { static P: c18::C18 = c18::C18; $f(&P $(, $arg)*) }
+            "C19" => { static P: c19::C19 = c19::C19; $f(&P $(, $arg)*) }
+            "C20" => { static P: c20::C20 = c20::C20; $f(&P $(, $arg)*) }
+            _ => Default::default(),
+        }
+    }};
+}
+
+/// Properties the generic target serves (C14 works on private copies of the rules directory and C15 on a fixed
+/// corpus x configuration grid: neither is driven by a proptest strategy worth mutating).
+pub const GEN_TARGET_PROPS: &[&str] = &["C01", "C02", "C03", "C04", "C05", "C06", "C07", "C08", "C09", "C10", "C11", "C12", "C13", "C16", "C17", "C18", "C19", "C20"];
+
+fn eval_bytes<P: Property + 'static>(p: &'static P, data: &[u8]) -> Vec<(String, String)> {
+    use std::any::Any;
+    use std::cell::RefCell;
+    thread_local! { static STRAT: RefCell<Option<Box<dyn Any>>> = const { RefCell::new(None) }; }
+    let case = STRAT.with(|s| {
+        let mut s = s.borrow_mut();
+        if s.is_none() {
+            *s = Some(Box::new(p.strategy(Tier::Thorough)) as Box<dyn Any>);
+        }
+        let strat = s.as_ref().unwrap().downcast_ref::<proptest::strategy::BoxedStrategy<P::Case>>().expect("one property per process");
+        case_from_bytes(p, strat, data)
+    });
+    match case {
+        Some(c) => evaluate(p, c),
+        None => vec![],
+    }
+}
+
+/// evaluate the case that `data` selects from the strategy of property `id`; returns the unlisted violations
+pub fn evaluate_bytes(id: &str, data: &[u8]) -> Vec<(String, String)> {
+    with_property!(id, eval_bytes, data)
+}
+
+fn show_bytes<P: Property + 'static>(p: &'static P, data: &[u8]) -> String {
+    let strat = p.strategy(Tier::Thorough);
+    match case_from_bytes(p, &strat, data) {
+        Some(c) => p.to_json(&c).to_string(),
+        None => "rejected by the strategy".to_string(),
+    }
+}
+
+/// the case (JSON form) that `data` selects
+pub fn case_json_from_bytes(id: &str, data: &[u8]) -> String {
+    with_property!(id, show_bytes, data)
+}
+
+/// entry of the generic libFuzzer target (property chosen by MCV_FUZZ_PROP)
+pub fn run_bytes(data: &[u8]) {
+    static ID: OnceLock<String> = OnceLock::new();
+    let id = ID.get_or_init(|| std::env::var("MCV_FUZZ_PROP").unwrap_or_else(|_| "C01".to_string()));
+    let v = evaluate_bytes(id, data);
+    if let Some((sig, detail)) = v.first() {
+        eprintln!("VIOLATION property={} signature={}\n{}", id, sig, detail.chars().take(1500).collect::<String>());
+        std::process::abort();
+    }
+}
